@@ -79,4 +79,14 @@ CLAIMED = {
              'Polygon2D area/orientation ones are a hand-written specification validated by the history runner. Known finding: '
              'Face3D.mesh_grid vertex normals of unused vertices.',
         technique=T_Q),
+    'C05': dict(
+        text='Partial. Proved about the generated earcut predicates: the area sign is the orientation, _point_in_triangle is the three '
+             'barycentric sign tests (which sum to the triangle area), _intersects is true iff the segments cross properly (general '
+             'position) - this theorem does not compile against the pinned tree\'s comparison chain, which was repaired - and the '
+             'elementary steps conserve area for rings of any length: ear removal, convex fan, diagonal split. Containment, '
+             'non-overlap and edge-manifoldness of every produced triangulation are decided by an exact-rational tiling checker on '
+             'generated shapes up to 120 vertices and 6 holes (hashed path included).',
+        note='Partial: earcut control flow (linked list, z-order hash, hole bridging) is not modelled; point-set containment / '
+             'non-overlap are validated, not proved. Trusted: Coq kernel, py2coq, harness.',
+        technique=T_Q),
 }
